@@ -70,6 +70,11 @@ def chain(patterns, provider):
 
 
 EXTRA = [
+    # the second statement of a chain writes its columns through a UNION whose first-branch names are not alphabetical
+    ("create table s.t1 as select b, a from s.t0 union all select h, i from s.u0; insert into s.t2 select b, a from s.t1", None,
+     [("s.t0.b", "s.t2.b"), ("s.t0.a", "s.t2.a"), ("s.u0.h", "s.t2.b"), ("s.u0.i", "s.t2.a")]),
+    ("insert into s.t1 select c from s.t0; create table s.t2 as select c as z, c as y from s.t1 union all select h, i from s.u0; insert into s.t3 select z from s.t2; insert into s.t4 select z from s.t3", {"zz.other": ["q"]},
+     [("s.t0.c", "s.t4.z"), ("s.u0.h", "s.t4.z"), ("s.t0.c", "s.t2.y"), ("s.u0.i", "s.t2.y")]),
     # an unqualified column defined by TWO tables created earlier (JOIN ... USING): both chains run end to end
     ("create table s.t1 as select id, a from s.t0; create table s.t2 as select id, b from s.u0; insert into s.t3 select id, a, b from s.t1 join s.t2 using (id)", None,
      [("s.t0.id", "s.t3.id"), ("s.u0.id", "s.t3.id"), ("s.t0.a", "s.t3.a"), ("s.u0.b", "s.t3.b")]),
